@@ -28,13 +28,15 @@ Open Scope Z_scope.
 """
 
 
+_LOOP: list = []
+
+
 def drive(coro: Any) -> Any:
-    """Run a coroutine to completion without an event loop (bare yields only)."""
-    try:
-        while True:
-            coro.send(None)
-    except StopIteration as s:
-        return s.value
+    """Run a coroutine to completion on one persistent asyncio event loop."""
+    import asyncio
+    if not _LOOP or _LOOP[0].is_closed():
+        _LOOP[:] = [asyncio.new_event_loop()]
+    return _LOOP[0].run_until_complete(coro)
 
 
 def subvalues(t, acc: list) -> None:
@@ -173,21 +175,28 @@ def observe(case: Case, rng=None) -> None:
     before = freeze(case.x_seen)
     rbefore = repr(vobj)
     U.reset_logs()
+    case.vobj, case.px, case.raw, case.exc = vobj, px, None, None
     try:
         if case.mode == "sync":
             r = vobj(px)
         else:
             r = drive(vobj.validate_async(px))
-        case.obs = ctx.result(r)
-    except AssertionError:
-        case.obs = ("OAssert",)
-    except HarnessError:
-        raise
+        case.raw = r
     except RecursionError:
         raise HarnessError("recursion limit")
     except BaseException as e:  # noqa
-        case.obs = ("ORaise", exn_term(e))
-        case.exn_repr = f"{type(e).__name__}: {e}"
+        case.exc = e
+    if case.exc is not None:
+        if type(case.exc) is AssertionError:
+            case.obs = ("OAssert",)
+        else:
+            case.obs = ("ORaise", exn_term(case.exc))
+    else:
+        try:
+            case.obs = ctx.result(case.raw)
+        except HarnessError as he:
+            case.obs = ("ORaise", ("ExOther",))
+            case.unrepresentable = str(he)
     case.async_checks = U.ASYNC_CHECKS["n"]
     case.calls = list(U.CALLS)
     case.re_log = list(U.RE_LOG)
